@@ -66,15 +66,16 @@ type RowChange struct {
 }
 
 type txn struct {
-	id     int
-	conn   *conn
-	writes map[string]map[string]Row // table(lower) -> pk key -> row (nil = tombstone)
-	order  []wkey                    // first-touch order, for deterministic write sets
-	locks  map[string]bool
-	saves  []savepoint
-	xaXid  string
-	xaSt   int // 0 none, 1 active, 2 idle, 3 prepared
-	waits  *txn
+	readOnly bool // START TRANSACTION READ ONLY: writes are refused (1792)
+	id       int
+	conn     *conn
+	writes   map[string]map[string]Row // table(lower) -> pk key -> row (nil = tombstone)
+	order    []wkey                    // first-touch order, for deterministic write sets
+	locks    map[string]bool
+	saves    []savepoint
+	xaXid    string
+	xaSt     int // 0 none, 1 active, 2 idle, 3 prepared
+	waits    *txn
 }
 
 type wkey struct{ table, pk string }
